@@ -121,11 +121,18 @@ def real_path(proto, readers, kind):
             d = PC.free_digit("d")
             r1 = PC.build_readout(PC.IDENT, [list(b"1-0:1.8.0(0012") + [d] + list(b"*kWh)")], checksum=False)
             r2 = ref_p1.build_readout(b"/ADN9 6534", [b"1-0:1.7.0(00.332*kW)"])
-            stream = SBytes(r1 + r2)
-            payloads = [SBytes(r1[len(PC.IDENT) + 2:r1.index(0x21)]), SBytes(r2[12:r2.index(0x21)])]
+            r3 = ref_p1.build_readout(b"/LGF5E360", [b"1-0:2.7.0(00.000*kW)"], checksum=False)
+            stream = SBytes(r1 + r2 + r3)
+            payloads = [SBytes(r1[len(PC.IDENT) + 2:r1.index(0x21)]), SBytes(r2[12:r2.index(0x21)]), SBytes(r3[11:r3.index(0x21)])]
+            bounds_ = [len(r1), len(r1) + len(r2)]
         n = len(stream)
+        if kind == "hdlc":
+            s_ = list(stream)
+            fl = [i for i, x in enumerate(s_) if isinstance(x, int) and x == 0x7E]
+            bounds_ = [fl[1] + 1, fl[2] + 1] if len(fl) > 3 else [n // 2]
         expect = [p for p in payloads if p is not None] if proto == "payload" else payloads
-        for cuts in [(), (n // 3,), (n // 2,), (n - 4,), (5, n // 2)]:
+        # one call, cuts inside messages, cuts exactly between messages (the reader is empty when the next chunk arrives), a chunk of line ends only
+        for cuts in [(), (n // 3,), (n // 2,), (n - 4,), (5, n // 2), (bounds_[0],), tuple(bounds_), (bounds_[0] - 2, bounds_[0])]:
             chunks = HC.split(stream, cuts)
             w = {"sub": "real", "proto": proto, "readers": list(readers), "chunks": chunks, "expect": expect}
             loop = asyncio.new_event_loop()
@@ -154,6 +161,63 @@ def real_path(proto, readers, kind):
     return path
 
 
+def noise_between_path(proto, readers, kind, k):
+    """message 1 + k free octets + message 2 + message 3, the noise delivered as a chunk of its own (and glued to its neighbours);
+    oracle: what a fresh reader of the selected kind returns for the same chunks"""
+    def path(eng, ctx):
+        import han.meter_connection as MC
+        warnings.simplefilter("ignore")
+        noise = [sym_octet(f"n{i}") for i in range(k)]
+        if kind == "hdlc":
+            m1 = [0x7E] + ref.build_frame([0x03], [0x21], 0x13, [0xE6, 0x01]) + [0x7E]
+            m2 = [0x7E] + ref.build_frame([0x03], [0x21], 0x13, [0xE6, 0x02]) + [0x7E]
+            m3 = [0x7E] + ref.build_frame([0x02, 0x23], [0x21], 0x32, [0x0F, 0x40]) + [0x7E]
+            sel = "hdlc"
+        else:
+            m1 = ref_p1.build_readout(b"/LGF5E360", [b"1-0:1.8.0(000123*kWh)"])
+            m2 = ref_p1.build_readout(b"/ADN9 6534", [b"1-0:1.7.0(00.332*kW)"])
+            m3 = ref_p1.build_readout(b"/LGF5E360", [b"1-0:2.7.0(00.000*kW)"], checksum=False)
+            sel = "p1"
+        stream = SBytes(m1 + noise + m2 + m3)
+        a, b = len(m1), len(m1) + k
+        for cuts in [(a, b), (a,), (b,), (a, b, b + len(m2))]:
+            chunks = HC.split(stream, cuts)
+            w = {"sub": "real", "proto": proto, "readers": list(readers), "chunks": chunks}
+            refr = make_reader(sel)
+            exp = []
+            for ch in chunks:
+                for m in refr.read(ch):
+                    if proto == "message":
+                        exp.append(m.payload)
+                    elif bool(m.is_valid) and m.payload is not None and len(m.payload) > 0:
+                        exp.append(m.payload)
+            w["expect"] = exp
+            loop = asyncio.new_event_loop()
+            asyncio.set_event_loop(loop)
+            try:
+                q = asyncio.Queue()
+                p = (MC.SmartMeterMessagePayloadProtocol if proto == "payload" else MC.SmartMeterMessageProtocol)(q, [make_reader(r) for r in readers])
+                for ch in chunks:
+                    p.data_received(ch)
+                got = []
+                while not q.empty():
+                    v = q.get_nowait()
+                    got.append(v if isinstance(v, (SBytes, bytes)) or v is None else v.payload)
+            finally:
+                asyncio.set_event_loop(None)
+                loop.close()
+            if ctx.witness is None:
+                ctx.witness, ctx.obs = w, got
+                ctx.nontrivial()
+            if len(got) != len(exp):
+                ctx.violation(f"{proto} {readers} {kind} noise cuts={cuts}: {len(got)} items on the queue, the selected reader reports {len(exp)}", w)
+                return
+            conds = [z3.BoolVal(g is None and e is None) if (g is None or e is None) else HC.seq_eq(g, e) for g, e in zip(got, exp)]
+            if not ctx.check(z3.And(conds) if conds else True, f"{proto} {readers} {kind} noise cuts={cuts}: queue == messages of a reference reader fed the same chunks", w):
+                return
+    return path
+
+
 def scenarios(tier):
     q = tier == "quick"
     A = ["lemma scenarios: candidate readers are stubs (free message count per call, free is_valid, free payload kind)"] + inject.assumptions(("mc",))
@@ -169,7 +233,15 @@ def scenarios(tier):
             if q and proto == "message" and len(readers) == 1:
                 continue
             out.append(Scenario(f"real readers {list(readers)}, clean {kind} stream, {proto} protocol", real_path(proto, readers, kind),
-                                bounds={"stream": "3 spec frames (one header-only, one free payload octet)" if kind == "hdlc" else "2 spec readouts (one free digit)", "candidates": list(readers), "splittings": "one call, 3 single cuts, one cut pair"},
+                                bounds={"stream": "3 spec frames (one header-only, one free payload octet)" if kind == "hdlc" else "3 spec readouts (one free digit)", "candidates": list(readers), "splittings": "one call, cuts inside messages, cuts exactly between messages, a chunk holding only the CR LF before a message boundary"},
+                                domains=("hdlc", "p1", "mc"), frontier=4, workers=4, assumptions=AR, replay_cap=40))
+    for proto in ("payload", "message"):
+        for readers, kind in ((("p1",), "p1"), (("hdlc", "p1"), "p1"), (("hdlc",), "hdlc"), (("p1", "hdlc"), "hdlc")):
+            if q and proto == "message" and len(readers) == 2:
+                continue
+            k = 2 if q else 3
+            out.append(Scenario(f"real readers {list(readers)}, {kind} messages with {k} free octets between them, {proto} protocol", noise_between_path(proto, readers, kind, k),
+                                bounds={"stream": f"message + {k} free octets + 2 messages", "splittings": "noise as a chunk of its own / glued to either neighbour", "oracle": "a fresh reader of the selected kind fed the same chunks"},
                                 domains=("hdlc", "p1", "mc"), frontier=4, workers=4, assumptions=AR, replay_cap=40))
     return out
 
